@@ -2,6 +2,8 @@
 C10, C11, C12, C14, C15 and the purge side of C08/C19/C20."""
 import z3
 
+from pyvc.values import tid
+
 from pyvc import spec, fsmodel
 from pyvc.fsmodel import (ABSENT, DIR, FILE, SYMLINK, Event, fs_of, filetext_f)
 from pyvc.vc import Contract, LoopAnnot
@@ -25,7 +27,7 @@ def sane_stem(stem):
 def stem_of(ctx, info_path):
     """(is_trashinfo_name, stem) of basename(info_path)"""
     b = spec.basename(ctx, info_path)
-    key = ('stem', b.get_id())
+    key = ('stem', tid(b))
     if key not in ctx.notes:
         st = ctx.fresh_str('stem')
         ctx.assume(z3.Implies(z3.SuffixOf(SV(TI), b), b == z3.Concat(st, SV(TI))))
